@@ -341,6 +341,8 @@ def run(g, env, cfg, seq):
                 if want and cfg.is_deprecated(m.recs[bk][0]):
                     m.recs[bk][0] = cfg.set_password_value(key, op[2])  # the upgraded hash must be stored
                     m.touched.add(bk)
+                    stored = outcome(lambda: next((h for k, h in read_records(f.to_string(), cfg.nfields) if k == bk), None))  # first line wins
+                    g.check(stored == ("ok", m.recs[bk][0]), f"{C}:check_password:upgrade-not-stored", "successful check_password against a deprecated hash did not store the upgraded hash", dict(w, stored=repr(stored), want=repr(m.recs[bk][0])))
                 else:
                     op = op + ("nochange",)
         elif name == "delete_realm":
@@ -397,14 +399,15 @@ def build(tier, rng):
                 f"every operation sequence of length <= 2 over {{set_password, set_hash, delete, check_password"
                 f"{', delete_realm' if cls == 'htdigest' else ''}, to_string, save+load, load, load_if_changed, external write + load_if_changed}} on 2 users"
                 f"{' x 2 realms' if cls == 'htdigest' else ''} x 2 passwords, from 5 initial files (empty, comments, blank lines, duplicate users, CRLF) x "
-                f"schemes {schemes} x autosave on/off; plus every sequence of length 3 from the 'comments' file (htdigest: reduced alphabet; thorough: all 5 files, full "
-                "alphabet, and length 4 (htpasswd) / 3 (htdigest) on a reduced alphabet with autosave from 'comments' and 'dup') in the first scheme; encodings utf-8/latin-1 and str/bytes arguments alternate over configurations.  After every step: independent "
+                f"schemes {schemes} x autosave (quick: alternating over scheme/file; thorough: on and off); plus every sequence of length 3 from the 'comments' file (htdigest: reduced alphabet; thorough: all 5 files, full "
+                "alphabet (htdigest: full for 'comments' and 'dup', reduced for the others), and length 4 (htpasswd) / 3 (htdigest) on a reduced alphabet with autosave from 'comments' and 'dup') in the first scheme; encodings utf-8/latin-1 and str/bytes arguments alternate over configurations.  After every step: independent "
                 "reader of to_string() == model (once each), layout of untouched lines, check_password for all users x passwords, disk == export under autosave",
             )
             n = 0
-            for scheme in schemes:
-                for initial in INITIALS:
-                    for autosave in (False, True):
+            for si, scheme in enumerate(schemes):
+                for ii, initial in enumerate(INITIALS):
+                    # quick: autosave alternates over (scheme, file); thorough: both values everywhere
+                    for autosave in ((si + ii) % 2 == 1,) if quick else (False, True):
                         n += 1
                         cfg = Cfg(cls, scheme, "utf-8" if n % 2 else "latin-1", autosave, n % 3 == 0, initial, default_realm=(n % 4 == 1))
                         ops = ops_for(cfg)
@@ -430,7 +433,8 @@ def build(tier, rng):
             for initial in ["comments"] if quick else INITIALS:
                 cfg = Cfg(cls, schemes[0], "utf-8", False, False, initial)
                 full = [o for o in ops_for(cfg) if o[0] != "to_string"]
-                plans.append((cfg, reduced(cfg) if (quick and cls == "htdigest") else full, 3))
+                small = cls == "htdigest" and (quick or initial not in ("comments", "dup"))
+                plans.append((cfg, reduced(cfg) if small else full, 3))
             if not quick:
                 for initial in ("comments", "dup"):
                     cfg = Cfg(cls, schemes[0], "utf-8", True, False, initial)
